@@ -371,3 +371,24 @@ PROPS["C14"] = dict(
     assumptions=["outside the claim as in the property: empty path segments, percent-encoded '/' and '.', opaque paths, IPv4 number forms, back-slashes, "
                  "the origin getter, a second '#' in a fragment"],
 )
+
+
+PROPS["C18"] = dict(
+    harness="jsorder", module="Cases.C18Check", shard=100,
+    level_text="C18_immediates_fifo (for every program and every timer schedule: ran ++ waiting = requests in order, minus those cleared while waiting), "
+               "C18_reactions_before_next_macro, C18_reactions_fifo, C18_throw_skips_only_its_body, C18_body_keeps_queued, C18_accepted_log_ordered "
+               "(every log the judge accepts has these properties), C18_immediates_use_the_fifo_queue (C04's invariant of the loop model), C18_source_tie",
+    level_note="Proof is about Model/JsOrder.v, an abstract machine for callback bodies (queue a reaction / immediate / timer, clear, throw) that runs one "
+               "macro task and then all reactions, with the firing order of timers left free. goja's promise job queue ('reactions run when the call "
+               "stack empties, in order') and the wrappers of schedule()/setImmediate() are what the machine abstracts; the tie is the judge applied "
+               "to the logs of generated programs on the real loop, and the text of the loop's functions (shared with C03-C08).",
+    rule="program = tree of 1-60 callbacks to depth 3: promise reactions, setImmediate, setTimeout (0-2 ms), self-clearing setInterval, clearImmediate/"
+         "clearTimeout/clearInterval of handles created earlier (also before they exist, after they ran, twice), busy-waits, throws in scripts, "
+         "reactions, immediates and timers; run with loop.Run on real timers; non-trivial = at least 4 callbacks; distinct by hash",
+    codes={"SpecFail1": "the observed order breaks a rule (a reaction was overtaken, immediates out of request order, a cleared/unscheduled callback ran)",
+           "SpecFail2": "a queued promise reaction never ran", "SpecFail3": "a requested immediate never ran",
+           "SpecFail4": "Run() returned although an armed, uncleared timer had not run", "Diff1": "generator produced a duplicate immediate id",
+           "Implrun-did-not-return": "Run() did not return within 5 s"},
+    trusted=["goja: promise job queue semantics and callable wrappers", "real-time timers (firing order is not constrained by the judge)"],
+    assumptions=["each callback is scheduled at most once (tree-shaped programs)", "no order is promised between different timers"],
+)
